@@ -19,6 +19,7 @@ ASSUMPTIONS = [
     "restart of the receive loop (Actor restart after an unhandled exception in _run, or stop() followed by start()): the "
     "distribution tasks are plain asyncio tasks the service does not own, so they are not cancelled and their done-callbacks keep "
     "running; the channel receiver persists; requests sent while the loop is down are consumed after the restart, in order",
+    "the EMPTY component set is a group like any other (group label 4 in the harness)",
     "a component group is the SET of component ids: every request carries its own set/frozenset object, built with ascending or "
     "descending insertion order over ids that collide in a small hash table (equal sets, different iteration order)",
     "a caller may keep one mutable set of component ids per group, pass it uncopied as Request.component_ids and update it in place "
